@@ -51,6 +51,31 @@ def const(v):
     return ("const", v)
 
 
+def _table_key(k) -> bool:
+    """a key of a literal dispatch table: a constant, an enum member, or a tuple of those"""
+    return k[0] in ("const", "enum") or (k[0] == "tuple" and 0 < len(k[1]) <= 4 and all(e[0] in ("const", "enum") for e in k[1]))
+
+
+def _key_eq(x, k):
+    """x == k for a table key k; a tuple key against a tuple of the same length compares element by element (tuple equality),
+    elements that are the same constant on both sides drop out"""
+    if k[0] == "tuple" and x[0] == "tuple" and len(x[1]) == len(k[1]):
+        parts = []
+        for a, b in zip(x[1], k[1]):
+            if a[0] in ("const", "enum") and b[0] in ("const", "enum"):
+                if a == b or (a[0] == "const" and b[0] == "const" and a[1] == b[1] and type(a[1]) is type(b[1])):
+                    continue
+                if a[0] == "const" and b[0] == "const":
+                    return ("const", False)
+                if (a == ("const", None)) != (b == ("const", None)):
+                    return ("const", False)        # None equals no enum member / number
+            parts.append(("cmp", "==", a, b))
+        if not parts:
+            return ("const", True)
+        return parts[0] if len(parts) == 1 else ("bool", "and", tuple(parts))
+    return ("cmp", "==", x, k)
+
+
 def lit(v):
     """Term of a folded Python value: dictionaries become 'dict' terms (a term must stay hashable)."""
     if isinstance(v, dict):
@@ -681,7 +706,11 @@ class TermAnalysis(Analysis):
     def for_bind(self, node, state: State):
         st = state.copy()
         it = self.ev(node.iter, st)
-        self.assign(node.target, ("iter", it), st)
+        el = ("iter", it)
+        if it[0] == "comp" and it[1] in ("gen", "list") and len(it[3]) == 1 and not it[3][0][2] and it[3][0][0].isidentifier():
+            # iterating over (f(x) for x in xs) visits f(<element of xs>)
+            el = replace(it[2], {("bound", it[3][0][0]): ("iter", it[3][0][1])})
+        self.assign(node.target, el, st)
         return st
 
     def with_bind(self, item, state: State):
@@ -978,11 +1007,11 @@ class TermAnalysis(Analysis):
             rec = self._record(base) if is_const(idx) and isinstance(idx[1], int) else None
             if rec and rec["__tuple__"] and -len(rec["__order__"]) <= idx[1] < len(rec["__order__"]):
                 return rec[rec["__order__"][idx[1]]]
-            if base[0] == "dict" and 0 < len(base[1]) <= 12 and all(k[0] in ("const", "enum") for k, _v in base[1]) and not (idx[0] in ("const", "enum")):
+            if base[0] == "dict" and 0 < len(base[1]) <= 12 and all(_table_key(k) for k, _v in base[1]) and not (idx[0] in ("const", "enum")):
                 # TABLE[x] for a literal table: v1 if x == k1 else v2 if x == k2 ... (a missing key raises KeyError)
                 out = ("top", "KeyError: key not in the table")
                 for k, v in reversed(base[1]):
-                    out = ("ite", ("cmp", "==", idx, k), v, out)
+                    out = ("ite", _key_eq(idx, k), v, out)
                 return out
             if base[0] == "dict" and idx[0] in ("const", "enum"):
                 for k, v in base[1]:
@@ -1289,11 +1318,11 @@ class TermAnalysis(Analysis):
         if t[0] == "call" and t[1] == ("ext", "len") and len(t[2]) == 1 and not t[3] and is_const(t[2][0]) and isinstance(t[2][0][1], (bytes, str)):
             return const(len(t[2][0][1]))
         if t[0] == "call" and t[1][0] == "meth" and t[1][2] == "get" and t[1][1][0] == "dict" and 1 <= len(t[2]) <= 2 and not t[3] \
-                and 0 < len(t[1][1][1]) <= 12 and all(k[0] in ("const", "enum") for k, _v in t[1][1][1]):
+                and 0 < len(t[1][1][1]) <= 12 and all(_table_key(k) for k, _v in t[1][1][1]):
             # {k1: v1, k2: v2}.get(x, d): a dispatch table is the chain  v1 if x == k1 else v2 if x == k2 else d
             out = t[2][1] if len(t[2]) == 2 else const(None)
             for k, v in reversed(t[1][1][1]):
-                out = ("ite", ("cmp", "==", t[2][0], k), v, out)
+                out = ("ite", _key_eq(t[2][0], k), v, out)
             return out
         if t[0] == "call" and t[1][0] == "meth" and t[1][2] in ("pack", "unpack", "unpack_from", "iter_unpack") and is_const(t[1][1]) \
                 and isinstance(t[1][1][1], tuple) and len(t[1][1][1]) == 2 and t[1][1][1][0] == "struct.Struct":
@@ -1324,6 +1353,10 @@ class TermAnalysis(Analysis):
             t = ("call", ("ext", "int"), t[2], ())            # on numbers math.trunc(x) is int(x)
         if t[0] == "call" and t[1] == ("ext", "int") and len(t[2]) == 1 and len(t[3]) == 1 and t[3][0][0] == "base":
             return ("call", t[1], (t[2][0], t[3][0][1]), ())                # int(x, base=b) is int(x, b)
+        if t[0] == "call" and t[1] == ("ext", "dict") and len(t[2]) == 1 and not t[3] and t[2][0][0] == "comp" and t[2][0][1] in ("list", "gen") \
+                and t[2][0][2][0] in ("tuple", "list") and len(t[2][0][2][1]) == 2 and not any(x[0] in ("starred", "when") for x in t[2][0][2][1]):
+            # dict((k, v) for x in xs) / dict([(k, v) for x in xs]) is {k: v for x in xs}
+            return ("comp", "dict", ("tuple", tuple(t[2][0][2][1])), t[2][0][3])
         if t[0] == "call" and t[1] == ("ext", "dict") and not t[2] and t[3] and all(isinstance(k, str) for k, _v in t[3]):
             return ("dict", tuple((const(k), v) for k, v in t[3]))       # dict(a=x) is {"a": x}
         if t[0] == "call" and t[1] == ("ext", "int.from_bytes") and t[3]:
@@ -1358,6 +1391,7 @@ class TermAnalysis(Analysis):
         a = node.args
         own = {x.arg for x in a.posonlyargs + a.args + a.kwonlyargs} | ({a.vararg.arg} if a.vararg else set()) | ({a.kwarg.arg} if a.kwarg else set())
         own |= {n.id for n in ast.walk(node) if isinstance(n, ast.Name) and isinstance(n.ctx, ast.Store)}
+        own |= {n.name for n in ast.walk(node) if isinstance(n, ast.ExceptHandler) and n.name}
         free = {n.id for n in ast.walk(node) if isinstance(n, ast.Name) and isinstance(n.ctx, ast.Load)} - own
         captured = free & (set(self.assigned) | set(self.param_names))
         if any(isinstance(n, (ast.Nonlocal, ast.Global, ast.Yield, ast.YieldFrom, ast.Lambda)) for n in ast.walk(node)):
@@ -1392,8 +1426,23 @@ class TermAnalysis(Analysis):
         its guard conditions join the caller's path condition, its raises become raises of the calling statement and
         its stores to `self` / mutated arguments are applied to the caller's environment."""
         callee = callee or self.prog.funcs[t[1][1]]
-        if self.inline_depth >= 4 or callee.qual == self.fn.qual or callee.is_async and any(isinstance(n, (ast.Yield, ast.YieldFrom)) for n in ast.walk(callee.node)):
+        yields = [n for n in ast.walk(callee.node) if isinstance(n, (ast.Yield, ast.YieldFrom))]
+        if self.inline_depth >= 4 or callee.qual == self.fn.qual or callee.is_async and yields:
             return None
+        if yields:
+            # a generator function whose whole body is `for x in xs: yield elt` is the generator expression (elt for x in xs)
+            body = [b for b in callee.node.body if not (isinstance(b, ast.Expr) and isinstance(b.value, ast.Constant))]
+            lp = body[0] if len(body) == 1 else None
+            if not (isinstance(lp, ast.For) and not lp.orelse and len(lp.body) == 1 and isinstance(lp.body[0], ast.Expr) and isinstance(lp.body[0].value, ast.Yield)
+                    and lp.body[0].value.value is not None and len(yields) == 1):
+                return None
+            gen = ast.GeneratorExp(elt=lp.body[0].value.value, generators=[ast.comprehension(target=lp.target, iter=lp.iter, ifs=[], is_async=0)])
+            fn2 = ast.FunctionDef(name=callee.node.name, args=callee.node.args, body=[ast.Return(value=gen)], decorator_list=[], returns=None, type_comment=None)
+            ast.copy_location(fn2, callee.node)
+            ast.copy_location(fn2.body[0], lp)
+            ast.copy_location(gen, lp)
+            ast.fix_missing_locations(fn2)
+            callee = FuncInfo(name=callee.name, qual=callee.qual + ".<as generator expression>", module=callee.module, node=fn2, cls=callee.cls, kind=callee.kind)
         amap = bind_args(callee, t[2], t[3])
         for c_, v_ in self._closure_consts.get(callee.name, {}).items() if callee.qual.startswith(self.fn.qual + ".<locals>.") else ():
             amap["<closure>" + c_] = v_
@@ -1502,6 +1551,16 @@ class TermAnalysis(Analysis):
             return leaves(x[2]) + leaves(x[3]) if x[0] == "ite" else [x]
         if v[0] == "call" and v[1][0] == "ext" and v[1][1] in ("operator.itemgetter", "operator.attrgetter") and v[2] and not v[3] and all(is_const(a) for a in v[2]):
             v = const((v[1][1], tuple(a[1] for a in v[2])))          # itemgetter("a", "b")(x): the getter object applied at once
+        if v[0] == "call" and v[1] == ("ext", "functools.partial") and v[2] and not any(k == "**" for k, _x in v[3] + tuple(kwargs)) \
+                and not any(a[0] == "starred" for a in v[2] + tuple(args)):
+            # partial(f, a, k=b)(c, m=d) is f(a, c, k=b, m=d)
+            tgt = v[2][0]
+            kw = dict(v[3])
+            kw.update(dict(kwargs))
+            if tgt[0] == "global" and (tgt[1] in self.prog.classes or (tgt[1] in self.prog.funcs and self.prog.funcs[tgt[1]].cls is None)):
+                return ("call", ("func", tgt[1]), tuple(v[2][1:]) + tuple(args), tuple(kw.items()))
+            if tgt[0] == "global":
+                return ("call", ("ext", tgt[1]), tuple(v[2][1:]) + tuple(args), tuple(kw.items()))
         lv = leaves(v)
         OPF = {"operator.pos": ("u", "pos"), "operator.neg": ("u", "neg"), "operator.not_": ("u", "not"), "operator.invert": ("u", "~"),
                "operator.add": ("b", "+"), "operator.sub": ("b", "-"), "operator.mul": ("b", "*"), "operator.or_": ("b", "|"), "operator.and_": ("b", "&"),
